@@ -184,11 +184,13 @@ def body(sub, root: tuple, tv: TV, extra=None) -> List[Tuple[str, str, str, str]
     rname = valuecheck.root_name(root)
     paths = object_paths(tv)
     if not paths or not extra:
+        valuecheck.note("not-judged:no-object-node" + (":alias-root" if root[0] == "alias" else ""))
         return []
     try:
         obj = sub.conv.structure(j, T)
         o = json.loads(json.dumps(sub.conv.unstructure(obj, T)))
     except Exception:
+        valuecheck.note("not-judged:baseline-fails(C01's matter)" + (":alias-root" if root[0] == "alias" else ""))
         return []  # not a C15 matter (C01)
     jp = copy.deepcopy(j)
     where = []
@@ -205,6 +207,7 @@ def body(sub, root: tuple, tv: TV, extra=None) -> List[Tuple[str, str, str, str]
             node[name] = payload
             where.append(":".join(str(x) for x in tvn.key))
     if not where:
+        valuecheck.note("not-judged:nothing-inserted")
         return []
     ctx = where[0]
     try:
